@@ -826,7 +826,7 @@ func factorial(m int) int {
 // seedCache pre-populates the cache per plan. Runs inside the bubble at Epoch.
 func (sc *RevScenario) seedCache(c *SimCache) error {
 	for _, w := range sc.Worlds {
-		w.crlReg = map[string]*CRLSpec{}
+		w.crlReg = nil
 		for _, cp := range w.Certs {
 			if cp.Pos == len(w.Certs)-1 {
 				continue
@@ -860,16 +860,17 @@ func (sc *RevScenario) seedCache(c *SimCache) error {
 				if err != nil {
 					return fmt.Errorf("cache seed base: %w", err)
 				}
-				w.crlReg[base.Hash] = base
+				w.crlReg = append(w.crlReg, base)
 				b := &corecrl.Bundle{BaseCRL: bx}
 				if s.HasDelta {
 					dp := s.Delta
 					d := w.buildCRL(cp, s, &dp, true, Epoch)
+					d.Origin = s.URL
 					dx, err := x509.ParseRevocationList(d.DER)
 					if err != nil {
 						return fmt.Errorf("cache seed delta: %w", err)
 					}
-					w.crlReg[d.Hash] = d
+					w.crlReg = append(w.crlReg, d)
 					b.DeltaCRL = dx
 				}
 				c.Seed(s.URL, b)
